@@ -31,7 +31,14 @@ impl Term for f64 {
         TermKind::Literal
     }
     fn lexical_form(&self) -> Option<MownStr> {
-        Some(MownStr::from(format!("{}", self)))
+        // Rust spells infinity "inf", which is not in the lexical space of xsd:double
+        Some(if *self == f64::INFINITY {
+            MownStr::from("INF")
+        } else if *self == f64::NEG_INFINITY {
+            MownStr::from("-INF")
+        } else {
+            MownStr::from(format!("{}", self))
+        })
     }
     fn datatype(&self) -> Option<IriRef<MownStr>> {
         Some(IriRef::new_unchecked(MownStr::from_ref(&XSD_DOUBLE)))
@@ -236,18 +243,60 @@ impl TryFromTerm for f64 {
 
     fn try_from_term<T: Term>(term: T) -> Result<Self, Self::Error> {
         if let Some(lex) = term.lexical_form() {
-            if Term::eq(&term.datatype().unwrap(), xsd::double)
-                || Term::eq(&term.datatype().unwrap(), xsd::float)
-                || Term::eq(&term.datatype().unwrap(), xsd::decimal)
-            {
-                lex.parse()
-            } else {
+            let datatype = term.datatype().unwrap();
+            let decimal = Term::eq(&datatype, xsd::decimal);
+            let float = Term::eq(&datatype, xsd::float);
+            if !(decimal || float || Term::eq(&datatype, xsd::double)) {
                 "wrong datatype".parse()
+            } else if !valid_xsd_float_chars(&lex, decimal) {
+                "not in the lexical space of the datatype".parse()
+            } else if float {
+                // the value space of xsd:float is that of f32
+                lex.parse::<f32>().map(f64::from)
+            } else {
+                lex.parse()
             }
         } else {
             "not a literal".parse()
         }
     }
+}
+
+/// [`str::parse`] accepts more than the lexical space of `xsd:double` and `xsd:float`
+/// (e.g. `inf`, `infinity`, `nan` in any case), or `xsd:decimal` (no exponent, no special value).
+/// This function rules out what Rust accepts and XSD does not.
+fn valid_xsd_float_chars(lex: &str, decimal: bool) -> bool {
+    match lex {
+        "INF" | "+INF" | "-INF" | "NaN" => !decimal,
+        _ => lex.bytes().all(|b| {
+            b.is_ascii_digit()
+                || matches!(b, b'+' | b'-' | b'.')
+                || (!decimal && matches!(b, b'e' | b'E'))
+        }),
+    }
+}
+
+/// Check that `value` belongs to the value space of `datatype`
+/// (assumed to be `xsd:integer` or one of the types derived from it).
+fn in_xsd_integer_range<T: Term>(datatype: T, value: i128) -> bool {
+    let bounded = [
+        (xsd::long, i64::MIN as i128, i64::MAX as i128),
+        (xsd::int, i32::MIN as i128, i32::MAX as i128),
+        (xsd::short, i16::MIN as i128, i16::MAX as i128),
+        (xsd::byte, i8::MIN as i128, i8::MAX as i128),
+        (xsd::unsignedLong, 0, u64::MAX as i128),
+        (xsd::unsignedInt, 0, u32::MAX as i128),
+        (xsd::unsignedShort, 0, u16::MAX as i128),
+        (xsd::unsignedByte, 0, u8::MAX as i128),
+        (xsd::nonNegativeInteger, 0, i128::MAX),
+        (xsd::positiveInteger, 1, i128::MAX),
+        (xsd::nonPositiveInteger, i128::MIN, 0),
+        (xsd::negativeInteger, i128::MIN, -1),
+    ];
+    bounded
+        .into_iter()
+        .find(|(dt, _, _)| Term::eq(&datatype, *dt))
+        .is_none_or(|(_, min, max)| min <= value && value <= max)
 }
 
 /// [`i32`] implements [`TryFromTerm`]
@@ -270,7 +319,12 @@ impl TryFromTerm for i32 {
                 || Term::eq(&term.datatype().unwrap(), xsd::negativeInteger)
                 || Term::eq(&term.datatype().unwrap(), xsd::positiveInteger)
             {
-                lex.parse()
+                let value: Self = lex.parse()?;
+                if in_xsd_integer_range(term.datatype().unwrap(), value as i128) {
+                    Ok(value)
+                } else {
+                    "out of the range of the datatype".parse()
+                }
             } else {
                 "wrong datatype".parse()
             }
@@ -300,7 +354,12 @@ impl TryFromTerm for isize {
                 || Term::eq(&term.datatype().unwrap(), xsd::negativeInteger)
                 || Term::eq(&term.datatype().unwrap(), xsd::positiveInteger)
             {
-                lex.parse()
+                let value: Self = lex.parse()?;
+                if in_xsd_integer_range(term.datatype().unwrap(), value as i128) {
+                    Ok(value)
+                } else {
+                    "out of the range of the datatype".parse()
+                }
             } else {
                 "wrong datatype".parse()
             }
@@ -328,7 +387,12 @@ impl TryFromTerm for usize {
                 || Term::eq(&term.datatype().unwrap(), xsd::nonNegativeInteger)
                 || Term::eq(&term.datatype().unwrap(), xsd::positiveInteger)
             {
-                lex.parse()
+                let value: Self = lex.parse()?;
+                if in_xsd_integer_range(term.datatype().unwrap(), value as i128) {
+                    Ok(value)
+                } else {
+                    "out of the range of the datatype".parse()
+                }
             } else {
                 "wrong datatype".parse()
             }
